@@ -9,6 +9,7 @@ import (
 	"github.com/vkngwrapper/arsenal/memutils"
 	"github.com/vkngwrapper/arsenal/memutils/defrag"
 	"github.com/vkngwrapper/arsenal/memutils/metadata"
+	"github.com/vkngwrapper/arsenal/vam"
 )
 
 // ---------------------------------------------------------------- fake granularity handler (accept all)
@@ -58,11 +59,26 @@ type block struct {
 	md   *metadata.TLSFBlockMetadata
 }
 
+// refusal is a commit attempt of the current pass the block list refused (CF)
+type refusal struct {
+	k      int // index of the attempt among the commit attempts of the pass
+	src    int // slot of the allocation the planner was relocating
+	dstBlk int // id of the block the destination request was made in
+}
+
 type world struct {
 	blocks   []*block
 	slots    []*alloc // slot -> allocation object (never reused)
 	sentinel bool     // temporaries carry the defrag context as metadata user data
 	dead     bool     // a panic happened: the history is over
+	gran     int      // bufferImageGranularity of the block list
+
+	// refused commits: the attempts (counted from 0 within a pass) listed in failSet make
+	// CommitDefragAllocationRequest return an error without touching any metadata
+	failSet  map[int]bool
+	attempt  int
+	lastSrc  int // slot of the allocation MoveDataForUserData last described to the planner
+	refusals []refusal
 
 	ctx      *defrag.MetadataDefragContext[alloc]
 	begun    bool
@@ -78,10 +94,18 @@ type world struct {
 	lockBad   bool
 }
 
-func newWorld(sizes []int, sentinel bool) *world {
-	w := &world{sentinel: sentinel}
+func newWorld(sizes []int, sentinel bool, gran int, handler string) *world {
+	if gran < 1 {
+		gran = 1
+	}
+	w := &world{sentinel: sentinel, gran: gran, lastSrc: -1}
 	for i, s := range sizes {
-		md := metadata.NewTLSFBlockMetadata(1, fakeGran{})
+		var gh metadata.GranularityCheck = fakeGran{}
+		if handler == "vam" {
+			// vam's real blockBufferImageGranularity, one per block as in vam's deviceMemoryBlock
+			gh = vam.VerifNewGranularityHandler(uint(gran), s)
+		}
+		md := metadata.NewTLSFBlockMetadata(gran, gh)
 		md.Init(s)
 		w.blocks = append(w.blocks, &block{id: i, size: s, md: md})
 	}
@@ -99,7 +123,7 @@ func (w *world) blockByID(id int) (int, *block) {
 
 func (w *world) MetadataForBlock(index int) metadata.BlockMetadata { return w.blocks[index].md }
 func (w *world) BlockCount() int                                   { return len(w.blocks) }
-func (w *world) BufferImageGranularity() int                       { return 1 }
+func (w *world) BufferImageGranularity() int                       { return w.gran }
 func (w *world) Lock()                                             { w.lockDepth++ }
 func (w *world) Unlock() {
 	w.lockDepth--
@@ -121,6 +145,7 @@ func (w *world) MoveDataForUserData(userData any) defrag.MoveAllocationData[allo
 		// not offered for relocation (this run's own temporaries)
 		return defrag.MoveAllocationData[alloc]{}
 	}
+	w.lastSrc = a.slot
 	return defrag.MoveAllocationData[alloc]{
 		Alignment:         a.align,
 		SuballocationType: a.kind,
@@ -135,6 +160,13 @@ func (w *world) MoveDataForUserData(userData any) defrag.MoveAllocationData[allo
 
 func (w *world) CommitDefragAllocationRequest(req metadata.AllocationRequest, blockIndex int, alignment uint, flags uint32, userData any, suballocType uint32, out *alloc) error {
 	b := w.blocks[blockIndex]
+	k := w.attempt
+	w.attempt++
+	if w.failSet[k] {
+		// the block list refuses this commit: no metadata is touched, no allocation object is filled in
+		w.refusals = append(w.refusals, refusal{k: k, src: w.lastSrc, dstBlk: b.id})
+		return errors.New("commit refused")
+	}
 	var ud any = out
 	if w.sentinel {
 		ud = userData
